@@ -56,6 +56,8 @@ def run(ck, m):
             parts = o['key'].split(':', 2)
             ck.ob('C11.g', parts[1], parts[2] if len(parts) > 2 else 'rule', o['verdict'] == 'discharged', o['what'], o['loc'], verdict=o['verdict'])
     ck.floor('C11.g', n, 3, 'address rules of C06 evaluated')
+    one_mode_rule(ck, m)
+    loader_is_read_only(ck, m)
 
 
 def _run(ck, m):
@@ -443,3 +445,83 @@ def _const_eval(b, operand, depth=0):
         else:
             return []
     return out
+
+
+def one_mode_rule(ck, m, rule='C11.j'):
+    """C11.j / C06.r — see RULES"""
+    from nl import locks
+    P = m.prog
+    ck.rule(rule, 'a snapshot runs in ONE mode: the selection of the entries to write, the opening of the data files (append, or rename / remove and '
+                  'start again) and the per-entry decisions all test the same reclaim flag — a flag that is switched on after the entries were '
+                  'selected (an automatic compaction decided halfway) renames and deletes the old files while only the changed entries are written '
+                  'to the new ones: every untouched key is gone from the disk, at once and not only after a crash')
+    wr = [b for b in P.user_bodies() if b.id.endswith('NodeDrive::storage_data_disk')]
+    if not wr:
+        ck.undecided(rule, 'writer', 'anchor', 'disk snapshot writer not found')
+        return
+    wb = wr[0]
+    flags = [i for i in range(1, wb.argc + 1) if wb.locals[i] == 'bool']
+    if len(flags) != 1:
+        ck.undecided(rule, short(wb.id), 'anchor', 'expected one bool parameter (the reclaim flag), found %d' % len(flags))
+        return
+    fp = flags[0]
+    uses = []
+    for bi in wb.reachable():
+        if wb.blocks[bi].get('cleanup'):
+            continue
+        t = wb.term(bi)
+        if t['k'] == 'call' and not is_log(t) and P.bodies.get(callee(t)) is not None:
+            for a in t['args']:
+                p_ = a.get('m') or a.get('c')
+                if p_ is not None and not p_.get('p') and wb.locals[p_['l']] == 'bool':
+                    calls_, params_ = locks.backward_slice(wb, a)
+                    if fp in params_:
+                        uses.append(('argument of %s' % short(callee(t)), wb.loc(bi), frozenset(short(callee(wb.term(c))) for c in calls_ if not is_log(wb.term(c)))))
+        elif t['k'] == 'switch':
+            calls_, params_ = locks.backward_slice(wb, t['o'])
+            if fp in params_ and not (params_ - {fp}):
+                uses.append(('branch', wb.loc(bi), frozenset(short(callee(wb.term(c))) for c in calls_ if not is_log(wb.term(c)))))
+    kinds = {u[2] for u in uses}
+    okf = len(uses) >= 2 and len(kinds) == 1
+    ck.ob(rule, short(wb.id), 'one-mode', okf,
+          'the %d uses of the reclaim flag in the writer all see the same value (%s)' % (len(uses), sorted(next(iter(kinds))) or 'the parameter itself') if okf else
+          'the uses of the reclaim flag in the writer do not see the same value: %s' % sorted({'%s at %s depends on %s' % (u[0], u[1], sorted(u[2]) or 'the parameter only') for u in uses})[:6],
+          '%s:%s' % (wb.file, wb.line))
+    ck.floor(rule, len(uses), 3, 'uses of the reclaim flag in the snapshot writer')
+
+
+FS_MUTATORS = ('std::fs::rename', 'std::fs::remove_file', 'std::fs::remove_dir_all', 'std::fs::remove_dir', 'std::fs::copy', 'std::fs::write',
+               'std::fs::File::create', 'std::fs::File::set_len', 'std::fs::hard_link')
+
+
+def loader_is_read_only(ck, m, rule='C11.k'):
+    """C11.k — see RULES"""
+    P = m.prog
+    ck.rule(rule, 'loading a database changes no file: nothing reachable from the loader of the data files renames, removes, copies, creates or '
+                  'truncates a file — a start-up "repair" that puts a left-over backup of ONE of the two data files back pairs an old key file with '
+                  'the new value file (the offsets point into the wrong records), and it does so exactly after the kill the backup was kept for')
+    ld = [b for b in P.user_bodies() if b.id.endswith('storage::disk::create_db_from_file_name')]
+    if len(ld) != 1:
+        ck.undecided(rule, 'loader', 'anchor', 'disk loader not found')
+        return
+    seen, st, bad = set(), [ld[0].id], []
+    while st:
+        bid = st.pop()
+        if bid in seen or bid not in P.bodies:
+            continue
+        seen.add(bid)
+        b = P.bodies[bid]
+        for bi, t in b.calls():
+            if is_log(t):
+                continue
+            d = callee_decl(t)
+            if d in FS_MUTATORS or (d.startswith('std::fs::OpenOptions::') and d.split('::')[-1] in ('truncate', 'create', 'create_new', 'write', 'append')
+                                    and not any(const_val(r) is False for a in t['args'][1:] for r in origins(b, a) if r[0] == 'const')):
+                bad.append('%s in %s (%s)' % (d, short(bid), b.loc(bi)))
+            if callee(t) in P.bodies:
+                st.append(callee(t))
+        st += [k for k in P.bodies if k.startswith(bid + '::{closure')]
+    ck.ob(rule, short(ld[0].id), 'loader-changes-no-file', not bad,
+          'the %d bodies reachable from the loader only read' % len(seen) if not bad else
+          'the load path changes files: %s' % sorted(set(bad))[:4], '%s:%s' % (ld[0].file, ld[0].line))
+    ck.floor(rule, len(seen), 2, 'bodies reachable from the loader')
